@@ -1411,6 +1411,9 @@ func (b *beacon) GetManyFromOrderPosition(orderPosition *OrderPosition) ([]treas
 	if !b.isOrdered {
 		return nil, errors.New("beacon is not ordered")
 	}
+	if orderPosition.From < 0 {
+		return nil, errors.New("the from offset must not be negative")
+	}
 
 	// Validate and set initial bounds
 	startIdx := 0
